@@ -573,6 +573,8 @@ type vfBBCase struct {
 	Bidi bool `json:"bidi"`
 	// Traced: the server was started with an HTTP tracer (every request body is wrapped by the tracing middleware)
 	Traced bool `json:"traced,omitempty"`
+	// Trailers: the (POST) request carries an HTTP trailer, which no protocol of the suite allows in a request
+	Trailers bool `json:"trailers,omitempty"`
 }
 
 var (
@@ -673,6 +675,11 @@ func vfBBCheck(c vfBBCase) error {
 	if c.Timeout != "" {
 		req.Header.Set(connectTimeoutHeader, c.Timeout)
 	}
+	sendsTrailers := c.Trailers && req.Method == http.MethodPost
+	if sendsTrailers {
+		req.ContentLength = -1 // (chunked / no content-length, so that a trailer can follow the body)
+		req.Trailer = http.Header{"X-Verif-Trailer": {"t"}}
+	}
 	ctx, cancel := context.WithTimeout(context.Background(), 20*time.Second)
 	defer cancel()
 	resp, err := vfBBCli[idx].Do(req.WithContext(ctx))
@@ -707,6 +714,9 @@ func vfBBCheck(c vfBBCase) error {
 		if strings.Contains(l, connectTimeoutHeader) {
 			got["timeout"], classified = true, true
 		}
+		if strings.Contains(l, "HTTP trailers") {
+			got["request-trailers"], classified = true, true
+		}
 		if !classified {
 			other = append(other, l)
 		}
@@ -714,6 +724,9 @@ func vfBBCheck(c vfBBCase) error {
 	dur, grammatical := vfTimeoutGrammar(1, c.Timeout)
 	if c.Timeout != "" && !grammatical && c.Expected.Protocol == 1 {
 		want["timeout"] = true
+	}
+	if sendsTrailers {
+		want["request-trailers"] = true
 	}
 	for aspect := range want {
 		if !got[aspect] {
@@ -774,7 +787,7 @@ func TestVerifC12BlackBox(t *testing.T) {
 	setups := vfAllSetups()
 	verifkit.Run(t, "C12BlackBox", verifkit.Spec[vfBBCase]{
 		Gen: func(t *rapid.T) vfBBCase {
-			c := vfBBCase{H2: rapid.Bool().Draw(t, "h2"), Traced: rapid.IntRange(0, 3).Draw(t, "traced") == 0}
+			c := vfBBCase{H2: rapid.Bool().Draw(t, "h2"), Traced: rapid.IntRange(0, 3).Draw(t, "traced") == 0, Trailers: rapid.IntRange(0, 3).Draw(t, "reqTrailers") == 0}
 			c.Actual = vfSetup{Codec: rapid.IntRange(1, 2).Draw(t, "codec"), Get: rapid.Bool().Draw(t, "get"), ImplicitID: rapid.Bool().Draw(t, "implicit")}
 			c.Bidi = rapid.IntRange(0, 3).Draw(t, "bidi") == 0
 			if c.Bidi {
@@ -811,6 +824,9 @@ func TestVerifC12BlackBox(t *testing.T) {
 			}
 			if c.Traced {
 				cl = append(cl, "traced-server")
+			}
+			if c.Trailers {
+				cl = append(cl, "request-trailers")
 			}
 			return cl, n == 1 || n == 2 || c.Timeout != "" || c.Bidi
 		},
